@@ -10,5 +10,5 @@ cd "$(dirname "$0")/.."
 out=$(VERIF_REPO="$wt" VERIF_NO_EVIDENCE=1 ./check "$id" "$tier" 2>&1); rc=$?
 git -C /repo worktree remove --force "$wt"
 echo "$out" | grep -E "^VIOLATION|key=|MACHINERY|^\[" | head -${SEED_LINES:-8}
-if [ $rc -eq 1 ]; then echo "DETECTED $id $patch"; elif [ $rc -eq 0 ]; then echo "MISSED $id $patch"; else echo "ERROR(rc=$rc) $id $patch"; fi
+if [ $rc -eq 1 ] && echo "$out" | grep -q "^VIOLATION"; then echo "DETECTED $id $patch"; elif [ $rc -eq 1 ]; then echo "CRASH(rc=1,no VIOLATION line) $id $patch"; elif [ $rc -eq 0 ]; then echo "MISSED $id $patch"; else echo "ERROR(rc=$rc) $id $patch"; fi
 exit 0
